@@ -95,6 +95,12 @@ func (w *_watcher) run() {
 
 	var retry *time.Timer
 
+	// reconnects requested by scheduleRetry.  Kept apart from resetch (and
+	// replaced on every reset) so that a reconnect keeps the output channel the
+	// controller is waiting on, and a retry scheduled for an earlier session can
+	// not restart the watch at an older version.
+	retrych := make(chan string)
+
 mainloop:
 	for {
 
@@ -112,9 +118,20 @@ mainloop:
 				retry = nil
 			}
 
+			retrych = make(chan string)
+
 			session.stop()
 			session = newWatchSession(ctx, w.log, w.client, vsn)
 			outch = make(chan Event, EventBufsiz)
+			curVersion = vsn
+
+		case vsn := <-retrych:
+			w.log.Debugf("reconnecting at version %v", vsn)
+
+			retry = nil
+
+			session.stop()
+			session = newWatchSession(ctx, w.log, w.client, vsn)
 			curVersion = vsn
 
 		case <-session.done():
@@ -122,8 +139,7 @@ mainloop:
 
 			session.stop()
 			session = nullWatchSession{}
-			outch = nil
-			retry = w.scheduleRetry(w.resetch, curVersion)
+			retry = w.scheduleRetry(retrych, curVersion)
 
 		case evt := <-session.events():
 
